@@ -78,7 +78,7 @@ theorem WF.nodup_kind {L : Ledger} (h : WF L) (k : Kind) : (baseIds L k).Nodup :
   · exact List.nodup_nil
 
 theorem ctx_of_wf {L : Ledger} {b : Block} (hw : WF L) (hf : FreshIds L b) : Ctx (Tb L b) L := by
-  refine ⟨?_, fun k id h => Or.inl h, hw.nodup_kind, hw.fc1_bal, hw.fc2_missed⟩
+  refine ⟨?_, fun k id h => Or.inl h, hw.nodup_kind, hw.fc1_bal⟩
   intro k k' id h1 h2
   rcases h1 with h1 | h1 <;> rcases h2 with h2 | h2
   · exact hw.kind_unique h1 h2
@@ -197,6 +197,7 @@ theorem loop_v1 {T} (pid : Id) (mw : Nat) (l : List Txn1) : ∀ (ms ms' : Mid) (
 
 theorem loop_v2 {T} (mw : Nat) (l : List Txn2) : ∀ (ms ms' : Mid) (R : List (Kind × Id)),
     Ctx T ms.base → ms.base.child ≥ ms.base.P.ephemeralFix → Inv T ms →
+    (∀ e ∈ ms.base.fc2, e.fc.missedHost ≤ e.fc.host.value) →
     Fresh T ms (l.flatMap Txn2.created ++ R) →
     (∀ t ∈ l, (t.sfOuts.map (·.2.1)).sum < u64Limit) → sfTot ms < u64Limit →
     l.foldlM (stepV2 mw) ms = .ok ms' →
@@ -208,18 +209,18 @@ theorem loop_v2 {T} (mw : Nat) (l : List Txn2) : ∀ (ms ms' : Mid) (R : List (K
     (1 ≤ ms.base.P.maturityDelay → scW (wImm ms.base.child) ms + claimsV2 ms l ≤ scW (wImm ms.base.child) ms') := by
   induction l with
   | nil =>
-    intro ms ms' R _ _ hI hF _ _ h
+    intro ms ms' R _ _ hI _ hF _ _ h
     simp only [List.foldlM_nil] at h; cases h
     exact ⟨hI, hF, rfl, by simp [claimsV2], rfl, rfl, Nat.le_refl _, fun h => ⟨h, by simp [claimsV2]⟩, by simp, fun _ => by simp [claimsV2]⟩
   | cons t l ih =>
-    intro ms ms' R hc hfix hI hF hnw hsfb h
+    intro ms ms' R hc hfix hI hm2 hF hnw hsfb h
     rw [List.foldlM_cons, bind_eq_ok] at h
     obtain ⟨ms1, h1, h2⟩ := h
     unfold stepV2 at h1
     rw [bind_eq_ok] at h1; obtain ⟨u, hv, ha⟩ := h1
     simp only [List.flatMap_cons, List.append_assoc] at hF
-    obtain ⟨hI1, hF1, hb1, hP1, hS1, hpl1, hsv1, hpf1, hwi1⟩ := v2txn_conserves hc hfix hI hF (hnw t List.mem_cons_self) hsfb hv ha
-    obtain ⟨hI2, hF2, hb2, hP2, hS2, ha2, hpl2, hsv2, hpf2, hwi2⟩ := ih ms1 ms' R (hb1 ▸ hc) (hb1 ▸ hfix) hI1 hF1
+    obtain ⟨hI1, hF1, hb1, hP1, hS1, hpl1, hsv1, hpf1, hwi1⟩ := v2txn_conserves hc hfix hI hm2 hF (hnw t List.mem_cons_self) hsfb hv ha
+    obtain ⟨hI2, hF2, hb2, hP2, hS2, ha2, hpl2, hsv2, hpf2, hwi2⟩ := ih ms1 ms' R (hb1 ▸ hc) (hb1 ▸ hfix) hI1 (hb1 ▸ hm2) hF1
       (fun t' ht' => hnw t' (List.mem_cons_of_mem _ ht')) (hS1 ▸ hsfb) h2
     refine ⟨hI2, hF2, hb2.trans hb1, ?_, hS2.trans hS1, ?_, Nat.le_trans hpl1 hpl2, ?_, ?_, ?_⟩
     · simp only [List.map_cons, List.sum_cons]
@@ -476,7 +477,7 @@ theorem block_conserves {L : Ledger} {b : Block} {pid : Id} {msv : Mid}
     hnw.1 hsf0 hl1
   have hb1' : ms1.base = L := hb1
   -- v2 transactions
-  obtain ⟨hI2, hF2, hb2, hP2, hS2, ha2, hpl2, hsv2, hpf2, _⟩ := loop_v2 b.maxWeight b.v2txns ms1 msv _ (hb1' ▸ hc) (hb1' ▸ hfix) hI1 hF1
+  obtain ⟨hI2, hF2, hb2, hP2, hS2, ha2, hpl2, hsv2, hpf2, _⟩ := loop_v2 b.maxWeight b.v2txns ms1 msv _ (hb1' ▸ hc) (hb1' ▸ hfix) hI1 (hb1' ▸ hw.fc2_missed) hF1
     hnw.2 (hS1 ▸ hsf0) hl2
   have hb2' : msv.base = L := hb2.trans hb1'
   -- miner payouts
